@@ -1,6 +1,7 @@
 package props
 
 import (
+	"crypto/tls"
 	"encoding/json"
 	"fmt"
 	"strings"
@@ -16,7 +17,8 @@ import (
 // C15: Start/Stop/Restart leave the server in the state the call promises.
 
 type c15Case struct {
-	Program string `json:"program"` // S=Start T=Stop R=Restart p=client ping+close i=client ping+stay idle P=concurrent client during the next call
+	Program string `json:"program"` // S=Start T=Stop R=Restart p=client ping+close i=client ping+stay idle P=concurrent client during the next call; q/j/Q = the same over the TLS port
+	TLS     bool   `json:"tls,omitempty"`
 	Choices []int  `json:"choices,omitempty"`
 	Bound   int    `json:"bound,omitempty"`
 }
@@ -24,6 +26,8 @@ type c15Case struct {
 const c15Port = "6379"
 
 type c15World struct {
+	tls     bool
+	kit     *tlsKit
 	prog    string
 	srv     *redis.Server
 	double  *srv.Double
@@ -55,7 +59,19 @@ func (w *c15World) body() {
 	w.double = srv.NewDouble()
 	w.srv = srv.NewServer(w.double)
 	w.srv.SetPort(6379)
-	addr := ":" + c15Port
+	if w.tls {
+		kit, err := getKit()
+		if err != nil {
+			w.fail("harness", "certificate kit: "+err.Error())
+			return
+		}
+		w.kit = kit
+		w.srv.SetTLSPort(6380)
+		w.srv.SetTLSCertFile(kit.ServerCert)
+		w.srv.SetTLSKeyFile(kit.ServerKey)
+		w.srv.SetTLSCaCertFile(kit.CAFile)
+	}
+	_ = c15Port
 	var pending *c15Pinger
 	for i := 0; i < len(w.prog); i++ {
 		step := w.prog[i]
@@ -75,9 +91,11 @@ func (w *c15World) body() {
 				}
 			}
 		case 'T':
-			err := w.srv.Stop()
-			if err != nil {
-				w.fail("stop-failed", pos+": Stop returned "+err.Error())
+			// Stop may report an error (e.g. a TLS close notification that could not
+			// be sent); the statement is about the state after Stop returned, which is
+			// judged at the end whatever Stop returned.
+			if err := w.srv.Stop(); err != nil {
+				w.notes = append(w.notes, pos+": Stop returned "+err.Error())
 			}
 			w.running = false
 			w.stops++
@@ -85,13 +103,15 @@ func (w *c15World) body() {
 			err := w.srv.Restart()
 			w.stops++
 			if err != nil {
-				w.fail("restart-failed", pos+": Restart returned "+err.Error())
+				// only a Restart that returns WITHOUT error promises a serving
+				// server; after an error the stopped-state promises are checked
+				w.notes = append(w.notes, pos+": Restart returned "+err.Error())
 				w.running = false
 			} else {
 				w.running = true
 			}
-		case 'p', 'i':
-			cl, o := sched.Dial(addr)
+		case 'p', 'i', 'q', 'j':
+			cl, o := w.connect(step == 'q' || step == 'j')
 			if !w.running {
 				if o.Status != "refused" {
 					w.fail("port-open-after-stop", pos+": dial to the stopped server was not refused")
@@ -111,12 +131,13 @@ func (w *c15World) body() {
 				cl.Close()
 				continue
 			}
-			if step == 'p' {
+			if step == 'p' || step == 'q' {
 				cl.Close()
 			} else {
 				w.idle = append(w.idle, &c15Idle{cl: cl, stopsSeen: w.stops})
 			}
-		case 'P':
+		case 'P', 'Q':
+			overTLS := step == 'Q'
 			p := &c15Pinger{}
 			if i+1 < len(w.prog) {
 				p.during = w.prog[i+1]
@@ -124,7 +145,7 @@ func (w *c15World) body() {
 			w.pingers = append(w.pingers, p)
 			pending = p
 			vrt.Go("pinger", func() {
-				cl, o := sched.Dial(addr)
+				cl, o := w.connect(overTLS)
 				if o.Status != "ok" {
 					p.outcome = "refused"
 					return
@@ -144,12 +165,29 @@ func (w *c15World) body() {
 	}
 }
 
+// connect dials the plain or the TLS port; over TLS the real handshake is run.
+func (w *c15World) connect(overTLS bool) (*sched.Client, sched.Outcome) {
+	if !overTLS {
+		return sched.Dial(":" + c15Port)
+	}
+	raw, err := vrt.Dial(":6380")
+	if err != nil {
+		return nil, sched.Outcome{Status: "refused", Err: err.Error()}
+	}
+	tc := tls.Client(raw, w.kit.clientTLSConfig(w.kit.Clients["valid"]))
+	if err := tc.Handshake(); err != nil {
+		raw.Close()
+		return nil, sched.Outcome{Status: "handshake-failed", Err: err.Error()}
+	}
+	return sched.Wrap(tc, raw), sched.Outcome{Status: "ok"}
+}
+
 func (w *c15World) atQuiet(e *vrt.Exec) {
 	// (b)/(c): judged at final quiescence
 	conns := len(w.srv.Conns())
 	if !w.running {
-		if e.PortBound(c15Port) {
-			w.fail("port-still-bound-after-stop", "Stop returned but port "+c15Port+" cannot be bound again (an unclosed listener holds it)")
+		if e.PortBound(c15Port) || (w.tls && e.PortBound("6380")) {
+			w.fail("port-still-bound-after-stop", "Stop returned but a port cannot be bound again (an unclosed listener holds it)")
 		}
 		for _, t := range e.ThreadStates() {
 			if t.ID == 0 || t.Name == "pinger" || t.Finished {
@@ -199,6 +237,17 @@ func (w *c15World) atQuiet(e *vrt.Exec) {
 		if !accepting {
 			w.fail("no-accept-loop-while-running", "Start/Restart returned nil but no goroutine is accepting on port "+c15Port)
 		}
+		if w.tls {
+			acc := false
+			for _, t := range e.ThreadStates() {
+				if !t.Finished && strings.HasPrefix(t.Parked, "Accept:6380") {
+					acc = true
+				}
+			}
+			if !acc {
+				w.fail("no-accept-loop-while-running", "Start/Restart returned nil but no goroutine is accepting on the TLS port")
+			}
+		}
 	}
 }
 
@@ -206,7 +255,7 @@ func c15Explorer(prog string, bound int) (*sched.Explorer, *[]*c15World) {
 	var worlds []*c15World
 	x := &sched.Explorer{Bound: bound}
 	x.New = func() *sched.Run {
-		w := &c15World{prog: prog}
+		w := &c15World{prog: prog, tls: strings.ContainsAny(prog, "qjQ")}
 		worlds = append(worlds[:0], w)
 		return &sched.Run{
 			Body:    w.body,
@@ -288,6 +337,21 @@ func c15Run(c *fw.Ctx) {
 		}
 		c15Explore(c, prog, bound)
 	}
+	// the same lifecycle with the TLS port enabled and clients that do the real handshake
+	tlsCalls, tlsBound := 2, 1
+	if c.Thorough() {
+		tlsCalls, tlsBound = 3, 2
+	}
+	defer cleanupKit()
+	for _, prog := range c15TLSPrograms(tlsCalls) {
+		if !c.Mine() {
+			continue
+		}
+		if c.Expired() {
+			return
+		}
+		c15Explore(c, prog, tlsBound)
+	}
 	if c.Thorough() {
 		// deeper bound for the short programs
 		for _, prog := range c15Programs(3, true) {
@@ -346,12 +410,30 @@ func c15Explore(c *fw.Ctx, prog string, bound int) {
 	}
 }
 
+// c15TLSPrograms: lifecycle programs whose clients use the TLS port (q, j, Q) or both ports.
+func c15TLSPrograms(maxCalls int) []string {
+	var out []string
+	for _, p := range c15Programs(maxCalls, true) {
+		if !strings.ContainsAny(p, "piP") {
+			continue
+		}
+		t := strings.NewReplacer("p", "q", "i", "j", "P", "Q").Replace(p)
+		out = append(out, t)
+		if strings.Count(p, "p")+strings.Count(p, "i") >= 2 {
+			// mixed: first client plain, the others over TLS
+			k := strings.IndexAny(p, "pi")
+			out = append(out, p[:k+1]+strings.NewReplacer("p", "q", "i", "j", "P", "Q").Replace(p[k+1:]))
+		}
+	}
+	return out
+}
+
 // c15Class abstracts a program to its lifecycle calls (finding identity).
 func c15Class(prog string) string {
 	var b strings.Builder
 	for _, ch := range prog {
 		switch ch {
-		case 'S', 'T', 'R', 'P':
+		case 'S', 'T', 'R', 'P', 'Q':
 			b.WriteRune(ch)
 		}
 	}
@@ -381,10 +463,10 @@ func init() {
 	fw.Register(&fw.Prop{
 		ID:    "C15",
 		Level: "model_checking",
-		Rule:  "lifecycle programs: every sequence over {Start, Stop, Restart} of up to 3 calls (thorough 4) beginning with Start - including Stop on a stopped and Start on a running server - decorated between calls with {nothing, a client that connects, PINGs and disconnects, a client that PINGs and stays idle}, each also with a trailing client action, plus the variants in which a client thread dials and PINGs concurrently with a Stop/Restart; every schedule of the real Start/Stop/Restart, accept loops and connection goroutines with <= 2 preemptions (thorough: 3 for programs of <= 3 calls) over an in-memory port namespace (bind conflicts, backlog, close). Oracle: after Start/Restart returned nil every dial is accepted and PING answered; after Stop returned and quiescence the port can be bound, every client connection is closed, no server goroutine is alive, the registry is empty; while running the registry holds exactly the served connections and an accept loop is parked in Accept. A program is non-trivial when its schedules produce more than one distinct terminal observation.",
+		Rule:  "lifecycle programs: every sequence over {Start, Stop, Restart} of up to 3 calls (thorough 4) beginning with Start - including Stop on a stopped and Start on a running server - decorated between calls with {nothing, a client that connects, PINGs and disconnects, a client that PINGs and stays idle}, each also with a trailing client action, plus the variants in which a client thread dials and PINGs concurrently with a Stop/Restart; every schedule of the real Start/Stop/Restart, accept loops and connection goroutines with <= 2 preemptions (thorough: 3 for programs of <= 3 calls) over an in-memory port namespace (bind conflicts, backlog, close); the same programs with the TLS port enabled and clients doing the real crypto/tls handshake (<= 2 calls, bound 1; thorough 3 calls, bound 2). Oracle: after Start/Restart returned nil every dial is accepted and PING answered; after Stop returned and quiescence the port can be bound, every client connection is closed, no server goroutine is alive, the registry is empty; while running the registry holds exactly the served connections and an accept loop is parked in Accept. A program is non-trivial when its schedules produce more than one distinct terminal observation.",
 		Assumptions: []string{
 			"sequentially consistent interleavings; scheduling points at go, mutex, sync.Map, listener and connection operations (plus racy-set accesses)",
-			"plain port only in this revision of the check; the TLS accept loop is covered by C09",
+			"programs with TLS clients (real handshake, valid certificate) use up to 2 calls at deviation bound 1 in quick (3 calls, bound 2 in thorough)",
 		},
 		Run:    c15Run,
 		Replay: c15Replay,
